@@ -45,6 +45,7 @@ class CorrSim:
         sim = self
         self.events = []
         self.nested_sweep = False
+        self.nested_op = None
         self._in_nested = False
 
         class Hook(AbstractHook):
@@ -56,12 +57,16 @@ class CorrSim:
 
             async def send_error(self, m, err, cid):
                 sim.events.append(' E=' + sim.show(m))
-                if sim.nested_sweep and not sim._in_nested:
+                if (sim.nested_sweep or sim.nested_op) and not sim._in_nested:
                     # another task's correlator operation running while this hook call is
-                    # suspended (here: its sweep), cf. DESIGN tier 3
+                    # suspended (its sweep, or the receiver handling a response), cf. DESIGN tier 3
                     sim._in_nested = True
                     try:
-                        await sim.corr._remove_expired()
+                        if sim.nested_op is not None:
+                            op, sim.nested_op = sim.nested_op, None
+                            await op(m)
+                        else:
+                            await sim.corr._remove_expired()
                     finally:
                         sim._in_nested = False
 
